@@ -129,6 +129,10 @@ def run_case(rs, ctx):
                 feats[int(i)][1] = [2.0 * v for v in feats[int(j)][1]]
             if sum(1 for _, f in feats if any(f)) < 2:
                 continue
+            if rs.integers(5) == 0:
+                # cosine distance is scale invariant: tiny (or huge) magnitudes are legal feature vectors
+                sc = float(gen.pick(rs, [1e-9, 1e-12, 1e9]))
+                feats = [[a, [v * sc for v in f]] for a, f in feats]
             special |= mode in (1, 2)
             op = dict(op, features=feats)
             ops[step] = op
